@@ -154,6 +154,30 @@ def gen_timed_program(rng, N):
 
 def gen_case(rng, kind=None, workers=None, pswitch=None):
     kind = kind or ("cond" if rng.chance(1, 4) else "mutex")
+    if kind == "hold":
+        # targeted preemption: a locker that has reserved its seat is held before its enqueue (the unlocker's dequeue
+        # spins), a woken sleeper is held before it re-reads the word (a fresh locker barges); contended blocking locks
+        N = rng.rng(4, 6)
+        enq = rng.chance(3, 4)
+        workers = workers or (rng.rng(3, 4) if enq else rng.rng(2, 4))
+        pswitch = pswitch or rng.choice([35, 60])
+        objs = ["m0 mutex", "x0 var 0"]
+        threads, expect = {}, 0
+        for t in range(N):
+            ops = ["create %d" % q for q in range(1, N)] if t == 0 else []
+            for _ in range(rng.rng(3, 5)):
+                d = rng.rng(1, 9)
+                if rng.chance(1, 5):
+                    ops += [rng.choice(["trylock m0", "timedlock m0 3000"]), "unlockif m0"]
+                else:
+                    ops += ["lock m0", "add x0 %d" % d, "unlock m0"]
+                    expect += d
+            if t == 0:
+                ops += ["join %d" % q for q in range(1, N)] + ["get x0"]
+            threads[t] = ops
+        hold = ("blockq.enq %d 100" % rng.rng(18, 32)) if enq else ("mutex.lock.read %d %d" % (rng.rng(3, 8), rng.choice([20, 35])))
+        text = trace.case_text(workers, rng.rng(1, 1 << 30), objs, threads, pswitch=pswitch, extra={"hold": hold})
+        return {"text": text, "kind": kind, "N": N, "workers": workers, "pswitch": pswitch, "expect": {"x0": expect}}
     if kind == "timed":
         N = rng.rng(4, 6)            # main + timed locker + >= 2 blocking contenders
         workers = workers or rng.rng(2, 4)
@@ -295,6 +319,48 @@ def overlap_stats(r):
     return mx
 
 
+def situations(case, r):
+    """the situations the statement names, counted on one trace:
+       barging    = a successful acquiring CAS (lock.cas1 / try.cas whose operand equals the word in the snapshot) on a
+                    word >= 2 (bit clear, sleepers or announced lockers queued) by a thread that has not slept during the
+                    call (no blockq.enq of its own since its call line);
+       migrated   = a lock call during which the thread slept (blockq.enq on worker A) and whose next own-context
+                    line / return line is on another worker;
+       spin       = wake1.spin events (unlock's dequeue found the queue empty: racing a locker that has announced
+                    itself - seat CAS done - and not yet enqueued)"""
+    objs, _, _, _ = trace.parse_case(case["text"])
+    mutexes = set(n for n, (k, _) in objs.items() if k == "mutex")
+    call, slept, out = {}, {}, {"barging": 0, "barging_try": 0, "migrated": 0, "spin": 0, "slept_calls": 0}
+    for e in r["events"]:
+        T = e.actor
+        if e.kind == "S" and e.words and e.words[0] == "wake1.spin":
+            out["spin"] += 1
+        elif e.kind == "C":
+            call[T] = e.words
+            slept.pop(T, None)
+        elif e.kind == "P":
+            pid, obj, val = e.words[0], e.words[1], e.words[2]
+            if obj not in mutexes:
+                continue
+            if pid == "blockq.enq" and e.ctx == "c" and T in call and call[T][0] == "lock":
+                slept[T] = e.w                      # the worker the thread has just left
+            elif e.ctx == "m" and T in slept and slept[T] is not None and slept[T] >= 0:
+                out["slept_calls"] += 1
+                if e.w != slept[T]:
+                    out["migrated"] += 1
+                slept[T] = -1 - e.w                 # resumed: counted once per sleep; keeps "has slept" for barging
+            if e.ctx == "m" and pid in ("mutex.lock.cas1", "mutex.try.cas"):
+                st = _STATE.search(e.snap or "")
+                if st and st.group(1) == val and int(val) >= 2 and int(val) % 2 == 0 and T not in slept:
+                    out["barging"] += 1
+                    if pid == "mutex.try.cas":
+                        out["barging_try"] += 1
+        elif e.kind == "R":
+            call.pop(T, None)
+            slept.pop(T, None)
+    return out
+
+
 # --------------------------------------------------------------------------------------------------
 
 def load_corpus():
@@ -365,10 +431,26 @@ def run(ctx):
     cases += [gen_case(ctx.rng, kind="mutex", workers=ctx.rng.rng(2, 4), pswitch=85) for _ in range(n // 6)]
     # timed locker polling against blocking contenders (word 2, 4, .. = free with lockers queued)
     cases += [gen_case(ctx.rng, kind="timed") for _ in range(40 if not ctx.thorough else 400)]
+    # `hold` sweeps: seat reserved / not yet enqueued, woken / not yet re-read
+    cases += [gen_case(ctx.rng, kind="hold") for _ in range(50 if not ctx.thorough else 400)]
     results, fails, mism = judge(ctx, cases, exe, drv)
     hist = sync_common.point_histogram(results)
     missing = [p for p in POINTS if not hist.get(p)]
-    spins = sum(1 for r in results for e in r["events"] if e.kind == "S" and e.words and e.words[0] == "wake1.spin")
+    sit = {"barging": 0, "barging_try": 0, "migrated": 0, "spin": 0, "slept_calls": 0}
+    for c, r in zip(cases, results):
+        if c["workers"] >= 2:
+            for k, v in situations(c, r).items():
+                sit[k] += v
+        else:
+            sit["spin"] += situations(c, r)["spin"]
+    spins = sit["spin"]
+    # gates: the situations named by the statement must have been exercised by this very run
+    if sit["barging"] == 0:
+        missing.append("situation:barging (acquisition on a word >= 2 by a thread that did not sleep)")
+    if sit["migrated"] == 0:
+        missing.append("situation:sleeper resumed on another worker")
+    if spins <= 100 and not fails:
+        missing.append("situation:unlock racing an announced locker (wake1.spin %d <= 100)" % spins)
     dist = {}
     for c in cases:
         k = "%s/N%d/w%d/p%d" % (c["kind"], c["N"], c["workers"], c["pswitch"])
@@ -391,11 +473,11 @@ def run(ctx):
         "cases": len(cases), "corpus_cases": len(corpus), "model_steps_replayed": sum(
             int(m.split()[1]) for r in results for m in r["model"] if m.startswith("ok")),
         "disagreements": len(mism), "oracle_failures": len(fails),
-        "input_distribution_kind": {k: sum(v for kk, v in dist.items() if kk.startswith(k)) for k in ("mutex", "cond", "timed")},
+        "input_distribution_kind": {k: sum(v for kk, v in dist.items() if kk.startswith(k)) for k in ("mutex", "cond", "timed", "hold")},
         "input_distribution_workers": {str(w): sum(v for kk, v in dist.items() if "/w%d/" % w in kk) for w in (1, 2, 3, 4)},
         "input_distribution_pswitch": {str(p): sum(v for kk, v in dist.items() if kk.endswith("/p%d" % p)) for p in (20, 35, 60, 85)},
         "verdicts": verd, "return_values": rets, "point_histogram": {p: hist.get(p, 0) for p in POINTS},
-        "wake1.spin_events": spins, "runs_with_two_callbacks_of_one_thread": sum(1 for r in results if overlap_stats(r) >= 2)}
+        "wake1.spin_events": spins, "situations_2_to_4_workers": sit, "runs_with_two_callbacks_of_one_thread": sum(1 for r in results if overlap_stats(r) >= 2)}
     ctx.cov["evaluations"] = sum(len(r["events"]) for r in results)
     ctx.cov["samples"] += [{"case": cases[i]["text"], "verdict": results[i]["verdict"], "model": results[i]["model"]}
                            for i in (0, len(cases) // 2, len(cases) - 1)]
